@@ -462,3 +462,108 @@ def r01g(ctx):
                 else:
                     ctx.bad(cid, c.module.loc(st), f"the parent is rebuilt with *{par}.operands[1:] under isinstance({par}, {pcs}); {[pc for pc in pcs if pc.split('.')[-1] not in UNARY_IN_FRAME]} are not confirmed single-input classes")
     ctx.floor("parent rebuilds", n, 15)
+
+
+# ---------------------------------------------------------------------------------------------
+# R01h wiring of constructor arguments
+# ---------------------------------------------------------------------------------------------
+# (function, target class, slot, argument name) confirmed by reading
+R01H_EXCEPTIONS = {
+    ("_collection.from_array", "FromArray", "original_columns", "columns"): "the user's `columns` are the labels of the array (original_columns); the `columns` slot is the projection absorbed later",
+}
+R01H_EXCEPTIONS[("_dummies.get_dummies", "GetDummies", "dtype", "drop_first")] = (
+    "all 8 operands are handed positionally to pandas.get_dummies in pandas' own order (prefix, prefix_sep, dummy_na, columns, "
+    "sparse, drop_first, dtype) and the class never reads them by name - `_parameters` lacks `sparse`, a harmless inconsistency"
+)
+R01H_EXCEPTIONS[("_collection.DataFrame.join", "merge", "left_on", "on")] = "join(on=) names the key of the LEFT frame only; the right side joins on its index"
+# Not checked: more positionals than declared parameters. The *Align classes, Assign, MapPartitions, DescribeNonNumeric,
+# Repartition (a trailing None) are positional containers whose operands are forwarded with *self.operands; 12 such calls
+# were read and none is a defect.
+
+
+def _ident(v):
+    if isinstance(v, ast.Name):
+        return v.id
+    if isinstance(v, ast.Attribute) and isinstance(v.value, ast.Name) and v.value.id in ("self", "parent", "expr"):
+        return v.attr
+    return None
+
+
+@rule(
+    "R01h",
+    ["C01", "C02", "C10"],
+    """ARGUMENT WIRING: in every construction of an expression class anywhere in the package (API layer, rewrite rules,
+    lowering) the arguments are bound to the target's _parameters; an argument that is a plain name (x / self.x /
+    parent.x) equal to the name of ANOTHER parameter of the target lands in the wrong slot (ascending=na_position,
+    a positional list that skipped or swapped a parameter).""",
+)
+def r01h(ctx):
+    model = ctx.model
+    n = nf = 0
+    for mod, cls, fn in model.all_functions():
+        fq = qual(cls, fn) if cls is not None else f"{mod.name.split('.', 1)[-1]}.{fn.name}"
+        k = 0
+        for c in iter_body_nodes(fn):
+            if not isinstance(c, ast.Call):
+                continue
+            r = ctor_target(model, mod, cls, c)
+            if r is None:
+                continue
+            K = r[0]
+            b = bind_call(model, K, c)
+            params = set(model.parameters(K))
+            for p, v in sorted(b.args.items()):
+                name = _ident(v)
+                if name is None:
+                    continue
+                n += 1
+                if name != p and name in params:
+                    cid = f"{fq}->{K.name}:{p}<-{name}"
+                    if (fq, K.name, p, name) in R01H_EXCEPTIONS:
+                        ctx.exempt(cid, mod.loc(c), R01H_EXCEPTIONS[(fq, K.name, p, name)])
+                    else:
+                        ctx.bad(cid, mod.loc(c), f"`{ast.unparse(v)}` is passed as `{p}` of {K.name}, which has a parameter `{name}` of its own: the option ends up in the wrong slot")
+            k += 1
+        # calls of functions / methods defined in the package
+        for c in iter_body_nodes(fn):
+            if not isinstance(c, ast.Call) or not isinstance(c.func, (ast.Name, ast.Attribute)):
+                continue
+            target = None
+            r = model.resolve_expr(mod, c.func)
+            if r is not None and r[0] == "func":
+                target = r[2]
+            elif isinstance(c.func, ast.Attribute) and isinstance(c.func.value, ast.Name) and c.func.value.id == "self" and cls is not None:
+                mm = cls.provider(c.func.attr)
+                if mm is not None and isinstance(getattr(mm, "node", None), ast.FunctionDef):
+                    target = mm.node
+            if not isinstance(target, ast.FunctionDef):
+                continue
+            a = target.args
+            names = [x.arg for x in a.posonlyargs + a.args]
+            if names and names[0] in ("self", "cls"):
+                names = names[1:]
+            allp = set(names) | {x.arg for x in a.kwonlyargs}
+            bound = {}
+            for i, v in enumerate(c.args):
+                if isinstance(v, ast.Starred):
+                    break
+                if i < len(names):
+                    bound[names[i]] = v
+            for kw in c.keywords:
+                if kw.arg:
+                    bound[kw.arg] = kw.value
+            for p, v in sorted(bound.items()):
+                name = _ident(v)
+                if name is None:
+                    continue
+                nf += 1
+                if name != p and name in allp:
+                    cid = f"{fq}->{target.name}:{p}<-{name}"
+                    if (fq, target.name, p, name) in R01H_EXCEPTIONS:
+                        ctx.exempt(cid, mod.loc(c), R01H_EXCEPTIONS[(fq, target.name, p, name)])
+                    else:
+                        ctx.bad(cid, mod.loc(c), f"`{ast.unparse(v)}` is passed as `{p}` of {target.name}(), which has a parameter `{name}` of its own: the option ends up in the wrong slot")
+    ctx.ok("constructor arguments by name", "", f"{n} named arguments bound to their own slot")
+    ctx.ok("function arguments by name", "", f"{nf} named arguments of package functions / methods bound to their own slot")
+    ctx.floor("named constructor arguments", n, 900)
+    ctx.floor("named function arguments", nf, 700)
